@@ -390,6 +390,9 @@ func (u *Unit) runDefers(st *State, fr *Frame, k Kont) {
 // step executes one non-control instruction; false means the path ended.
 func (u *Unit) step(st *State, fr *Frame, in ssa.Instruction, pred *ssa.BasicBlock) bool {
 	tw := u.P.TW
+	if len(u.borrows) > 0 {
+		u.borrowAtInstr(st, fr, in)
+	}
 	switch x := in.(type) {
 	case *ssa.DebugRef:
 	case *ssa.Phi:
